@@ -29,6 +29,85 @@ import (
 type hdrCtx struct {
 	recv string // receiver name
 	prim string // the key.Signer / Verifier / MACer / Encryptor parameter
+	// cwt validator mode (T13): receiver v (*Validator), parameter claims (*Claims or ClaimsMap)
+	cwt    bool
+	claims string
+	isMap  bool
+}
+
+var claimsFields = map[string]string{"Expiration": "c_exp", "NotBefore": "c_nbf", "IssuedAt": "c_iat", "Issuer": "c_iss", "Audience": "c_aud"}
+var optsFields = map[string]string{"AllowMissingExpiration": "o_allow_missing", "ClockSkew": "o_skew", "ExpectIssuedInThePast": "o_iat_past", "ExpectedIssuer": "o_iss", "ExpectedAudience": "o_aud"}
+
+func isTimeType(t types.Type) bool {
+	n, ok := t.(*types.Named)
+	return ok && n.Obj().Pkg() != nil && n.Obj().Pkg().Path() == "time" && n.Obj().Name() == "Time"
+}
+
+// cwtExpr: expressions of Validate / ValidateMap mapped onto Model/Cwt.v
+func (f *ftr) cwtExpr(e ast.Expr) (term, bool) {
+	h := f.hdr
+	switch x := e.(type) {
+	case *ast.BasicLit:
+		if x.Kind == token.STRING && x.Value == `""` {
+			return term{"[]", true}, true
+		}
+	case *ast.SelectorExpr:
+		if id, ok := x.X.(*ast.Ident); ok && id.Name == h.claims && !h.isMap {
+			if fn, ok := claimsFields[x.Sel.Name]; ok {
+				return term{"(" + fn + " c)", true}, true
+			}
+		}
+		if in, ok := x.X.(*ast.SelectorExpr); ok && in.Sel.Name == "opts" {
+			if id, ok := in.X.(*ast.Ident); ok && id.Name == h.recv {
+				if fn, ok := optsFields[x.Sel.Name]; ok {
+					return term{"(" + fn + " o)", true}, true
+				}
+			}
+		}
+	case *ast.CallExpr:
+		if id, ok := x.Fun.(*ast.Ident); ok && id.Name == "toTime" && len(x.Args) == 1 {
+			p, v := f.bind(f.expr(x.Args[0]))
+			if p == "" {
+				return term{"(to_time " + v + ")", true}, true
+			}
+		}
+		if sel, ok := x.Fun.(*ast.SelectorExpr); ok {
+			if isTimeType(f.typeOf(sel.X)) {
+				pr, r := f.bind(f.expr(sel.X))
+				switch {
+				case sel.Sel.Name == "IsZero" && len(x.Args) == 0 && pr == "":
+					return term{"(is_zero " + r + ")", true}, true
+				case (sel.Sel.Name == "Add" || sel.Sel.Name == "After") && len(x.Args) == 1:
+					pa, a := f.bind(f.expr(x.Args[0]))
+					if pr == "" && pa == "" {
+						return term{"(" + map[string]string{"Add": "add", "After": "after"}[sel.Sel.Name] + " " + r + " " + a + ")", true}, true
+					}
+				}
+			}
+			if id, ok := sel.X.(*ast.Ident); ok && id.Name == h.claims && h.isMap && sel.Sel.Name == "Has" && len(x.Args) == 1 {
+				if l, ok := f.label(x.Args[0]); ok {
+					return term{"(has m " + l + ")", true}, true
+				}
+			}
+		}
+	case *ast.BinaryExpr:
+		// strings are byte strings in the model
+		if b, ok := f.typeOf(x.X).Underlying().(*types.Basic); ok && b.Info()&types.IsString != 0 && (x.Op == token.EQL || x.Op == token.NEQ) {
+			pl, l := f.bind(f.expr(x.X))
+			pr, r := f.bind(f.expr(x.Y))
+			if pl == "" && pr == "" {
+				if x.Op == token.EQL {
+					return term{"(bytes_eqb " + l + " " + r + ")", true}, true
+				}
+				return term{"(negb (bytes_eqb " + l + " " + r + "))", true}, true
+			}
+		}
+	case *ast.Ident:
+		if x.Name == "nil" {
+			return term{"tt", true}, true // `return nil`: no error
+		}
+	}
+	return term{}, false
 }
 
 type sliceSpec struct {
@@ -130,6 +209,9 @@ func (f *ftr) hdrExpr(e ast.Expr) (term, bool) {
 	if f.hdr == nil {
 		return term{}, false
 	}
+	if f.hdr.cwt {
+		return f.cwtExpr(e)
+	}
 	if v, ok := f.hdrVar(e); ok {
 		return term{v, true}, true
 	}
@@ -200,8 +282,18 @@ func isErrCheck(s ast.Stmt) bool {
 	if !ok || len(r.Results) != 1 {
 		return false
 	}
-	id, ok := r.Results[0].(*ast.Ident)
-	return ok && id.Name == "err"
+	if id, ok := r.Results[0].(*ast.Ident); ok && id.Name == "err" {
+		return true
+	}
+	// return fmt.Errorf("...: %w", err) and the like: still an error
+	if c, ok := r.Results[0].(*ast.CallExpr); ok {
+		if sel, ok := c.Fun.(*ast.SelectorExpr); ok {
+			if p, ok := sel.X.(*ast.Ident); ok && ((p.Name == "fmt" && sel.Sel.Name == "Errorf") || (p.Name == "errors" && sel.Sel.Name == "New")) {
+				return true
+			}
+		}
+	}
+	return false
 }
 
 // hdrStmt: statements of the slices; returns the IR, how many following statements it consumed, and whether it applied
@@ -227,7 +319,9 @@ func (f *ftr) hdrStmt(s ast.Stmt, next ast.Stmt) ([]irStmt, int, bool) {
 				return nil, 0, false
 			}
 			var rhs term
-			if hv, ok := f.hdrVar(sel.X); ok {
+			if id, ok := sel.X.(*ast.Ident); ok && f.hdr.cwt && f.hdr.isMap && id.Name == f.hdr.claims && e.Name == "err" && (sel.Sel.Name == "GetUint64" || sel.Sel.Name == "GetString") {
+				rhs = term{"(" + map[string]string{"GetUint64": "get_uint64", "GetString": "get_string"}[sel.Sel.Name] + " m " + l + ")", false}
+			} else if hv, ok := f.hdrVar(sel.X); ok {
 				switch {
 				case sel.Sel.Name == "GetInt" && e.Name == "_":
 					rhs = term{"(oget_int_ " + hv + " " + l + ")", true}
@@ -422,10 +516,97 @@ func findSlice(kind, recv, prim string, body []ast.Stmt) ([]ast.Stmt, error) {
 	return nil, fmt.Errorf("unknown slice kind")
 }
 
+// primCalls: for each of the ten methods, the one assignment to m.toSign / toMac / toEnc and the one call of the
+// primitive, with the receiver written m, the primitive p and the external-data parameter ext.
+func primCalls(pi *pkgInfo) string {
+	var rows []string
+	for _, sp := range sliceTargets {
+		if sp.kind != "prepare" && sp.kind != "gate" {
+			continue
+		}
+		name := "cose." + sp.typ + "_" + sp.method
+		var fd *ast.FuncDecl
+		for _, file := range pi.p.Syntax {
+			for _, d := range file.Decls {
+				if x, ok := d.(*ast.FuncDecl); ok && x.Body != nil && funcName(x) == sp.typ+"_"+sp.method {
+					fd = x
+				}
+			}
+		}
+		if fd == nil || fd.Recv == nil || len(fd.Recv.List) != 1 || len(fd.Recv.List[0].Names) != 1 || len(fd.Type.Params.List) != 2 ||
+			len(fd.Type.Params.List[0].Names) != 1 || len(fd.Type.Params.List[1].Names) != 1 {
+			rows = append(rows, fmt.Sprintf("(%s%%string, ([], []))", coqStr(name)))
+			continue
+		}
+		recv, prim, ext := fd.Recv.List[0].Names[0].Name, fd.Type.Params.List[0].Names[0].Name, fd.Type.Params.List[1].Names[0].Name
+		norm := func(e ast.Expr) string {
+			// rename by identifier, not by text
+			var walk func(n ast.Expr) string
+			walk = func(n ast.Expr) string {
+				switch x := n.(type) {
+				case *ast.Ident:
+					switch x.Name {
+					case recv:
+						return "m"
+					case prim:
+						return "p"
+					case ext:
+						return "ext"
+					}
+					return x.Name
+				case *ast.SelectorExpr:
+					return walk(x.X) + "." + x.Sel.Name
+				case *ast.CallExpr:
+					var as []string
+					for _, a := range x.Args {
+						as = append(as, walk(a))
+					}
+					return walk(x.Fun) + "(" + strings.Join(as, ", ") + ")"
+				}
+				return types.ExprString(n)
+			}
+			return walk(e)
+		}
+		var builds, calls []string
+		ast.Inspect(fd.Body, func(n ast.Node) bool {
+			switch x := n.(type) {
+			case *ast.AssignStmt:
+				for i, l := range x.Lhs {
+					if sel, ok := l.(*ast.SelectorExpr); ok && i < len(x.Rhs) {
+						if id, ok := sel.X.(*ast.Ident); ok && id.Name == recv && (sel.Sel.Name == "toSign" || sel.Sel.Name == "toMac" || sel.Sel.Name == "toEnc") {
+							builds = append(builds, "m."+sel.Sel.Name+" = "+norm(x.Rhs[i]))
+						}
+					}
+				}
+			case *ast.CallExpr:
+				if sel, ok := x.Fun.(*ast.SelectorExpr); ok {
+					if id, ok := sel.X.(*ast.Ident); ok && id.Name == prim {
+						switch sel.Sel.Name {
+						case "Sign", "Verify", "MACCreate", "MACVerify", "Encrypt", "Decrypt":
+							calls = append(calls, norm(x))
+						}
+					}
+				}
+			}
+			return true
+		})
+		rows = append(rows, fmt.Sprintf("(%s%%string, (%s, %s))", coqStr(name), coqList(quoteAll(builds)), coqList(quoteAll(calls))))
+	}
+	return "(* the structure handed to the primitive: every assignment to m.toSign / m.toMac / m.toEnc and every call of the\n   primitive in the ten methods (receiver m, primitive p, external data ext) *)\nDefinition prim_calls : list (String.string * (list String.string * list String.string)) := " + coqListNL(rows, "    ") + ".\n"
+}
+
+func quoteAll(xs []string) []string {
+	var out []string
+	for _, x := range xs {
+		out = append(out, coqStr(x)+"%string")
+	}
+	return out
+}
+
 func genSlices(ps []pkgInfo) string {
 	var b strings.Builder
 	b.WriteString("(* GENERATED by /verif/tools/gen (T12: header-logic slices of the message methods) from the ldclabs/cose working tree. Do not edit. *)\n")
-	b.WriteString("From Coq Require Import List ZArith Bool.\nFrom Coq Require Import Strings.Byte.\nFrom Cose Require Import Lib.Base Lib.GoSem Model.GoVal Model.HdrSem Gen.FuncsGen.\nImport ListNotations.\nOpen Scope Z_scope.\n\n")
+	b.WriteString("From Coq Require Import List ZArith Bool String.\nFrom Coq Require Import Strings.Byte.\nFrom Cose Require Import Lib.Base Lib.GoSem Model.GoVal Model.HdrSem Gen.FuncsGen.\nImport ListNotations.\nOpen Scope Z_scope.\n\n")
 	var pi *pkgInfo
 	for i := range ps {
 		if ps[i].short == "cose" {
@@ -489,6 +670,78 @@ func genSlices(ps []pkgInfo) string {
 		}
 		pos := pi.p.Fset.Position(stmts[0].Pos())
 		fmt.Fprintf(&b, "(* %s.%s, %s slice — %s:%d *)\nDefinition %s %s : res %s :=\n  %s.\n\n", sp.typ, sp.method, sp.kind, strings.TrimPrefix(pos.Filename, *repo+"/"), pos.Line, name, params, rt, body)
+	}
+	b.WriteString(primCalls(pi))
+	return b.String()
+}
+
+// ---- T13: cwt.Validator.Validate / ValidateMap (everything after the choice of `now`)
+
+func genCwtSlices(ps []pkgInfo) string {
+	var b strings.Builder
+	b.WriteString("(* GENERATED by /verif/tools/gen (T13: cwt.Validator.Validate / ValidateMap) from the ldclabs/cose working tree. Do not edit. *)\n")
+	b.WriteString("From Coq Require Import List ZArith Bool.\nFrom Coq Require Import Strings.Byte.\nFrom Cose Require Import Lib.Base Lib.GoSem Model.GoVal Spec.RFC8392 Model.Cwt.\nImport ListNotations.\nOpen Scope Z_scope.\n\n")
+	var pi *pkgInfo
+	for i := range ps {
+		if ps[i].short == "cwt" {
+			pi = &ps[i]
+		}
+	}
+	if pi == nil {
+		return b.String()
+	}
+	for _, t := range []struct {
+		method string
+		isMap  bool
+		params string
+	}{{"Validate", false, "(o : vopts) (now : gtime) (c : claims)"}, {"ValidateMap", true, "(o : vopts) (now : gtime) (m : cosemap)"}} {
+		name := "cwt_Validator_" + t.method
+		stub := func(why string) {
+			fmt.Fprintln(os.Stderr, "gen: T13:", name, "not translated:", why)
+			fmt.Fprintf(&b, "(* %s — NOT TRANSLATED: %s *)\nDefinition %s : unit := tt.\n\n", name, strings.ReplaceAll(why, "*)", "* )"), name)
+		}
+		var fd *ast.FuncDecl
+		for _, file := range pi.p.Syntax {
+			for _, d := range file.Decls {
+				if x, ok := d.(*ast.FuncDecl); ok && x.Body != nil && funcName(x) == "Validator_"+t.method {
+					fd = x
+				}
+			}
+		}
+		if fd == nil || fd.Recv == nil || len(fd.Recv.List) != 1 || len(fd.Recv.List[0].Names) != 1 || len(fd.Type.Params.List) != 1 || len(fd.Type.Params.List[0].Names) != 1 {
+			stub("method not found or of another signature")
+			continue
+		}
+		recv, claims := fd.Recv.List[0].Names[0].Name, fd.Type.Params.List[0].Names[0].Name
+		body := fd.Body.List
+		// preamble: nil check, now := time.Now(), FixedNow override
+		at := -1
+		for i, st := range body {
+			if ifCondText(st) == "!"+recv+".opts.FixedNow.IsZero()" {
+				at = i
+			}
+		}
+		if at != 2 || ifCondText(body[0]) != claims+" == nil" || assignText(body[1]) != "now := time.Now()" {
+			stub("the preamble is not `if claims == nil ..; now := time.Now(); if !v.opts.FixedNow.IsZero() ..`")
+			continue
+		}
+		if ov, ok := body[2].(*ast.IfStmt); !ok || len(ov.Body.List) != 1 || assignText(ov.Body.List[0]) != "now = "+recv+".opts.FixedNow" {
+			stub("FixedNow does not replace now")
+			continue
+		}
+		f := &ftr{pi: *pi, all: ps, fd: fd, declared: map[string]int{}, byteVars: map[string]string{}, names: map[types.Object]string{},
+			hdr: &hdrCtx{recv: recv, cwt: true, claims: claims, isMap: t.isMap}}
+		for _, r := range []string{"o", "now", "c", "m"} {
+			f.declared[r] = 1
+		}
+		ir := f.lower(body[3:])
+		term := f.emit(ir, kont{kind: 0}, map[string]bool{})
+		if f.err != nil {
+			stub(f.err.Error())
+			continue
+		}
+		pos := pi.p.Fset.Position(body[3].Pos())
+		fmt.Fprintf(&b, "(* Validator.%s after the choice of now — %s:%d *)\nDefinition %s %s : res unit :=\n  %s.\n\n", t.method, strings.TrimPrefix(pos.Filename, *repo+"/"), pos.Line, name, t.params, term)
 	}
 	return b.String()
 }
